@@ -172,6 +172,8 @@ def gen_leaf(rng, cls, s0, ic_prob=0.5, dc=False):
             d.update(args=[te], coq=[val])
         d['tb'] = (typ, val, F(0))
         d['src'] = True
+        # kind of analysis the source takes part in: only transient / s-domain sources are evaluated at s = s0
+        d['skind'] = 's' if (cls in ('sV', 'sI', 'Vstep', 'Istep', 'v', 'i') or (cls in ('V', 'I') and not dc)) else 'other'
     else:
         raise ValueError(cls)
     return d
@@ -180,7 +182,7 @@ def gen_leaf(rng, cls, s0, ic_prob=0.5, dc=False):
 def gen_tree(rng, s0, depth, root=None, budget=None, profile='s'):
     """random admissible tree.  Returns nested ['Ser'|'Par', [children]] / leaf dict"""
     if budget is None:
-        budget = [rng.randint(2, 6)]
+        budget = [rng.randint(2, 5)]
     kind = root or rng.choice(['Ser', 'Par'])
     n = rng.randint(2, 3)
     kids = []
@@ -734,8 +736,8 @@ def run(tier='quick', replay=None):
         res.extra['constructors_that_raise'] = unsupported_ctor
 
         # ---- 3. cases ---------------------------------------------------------------------
-        n_one = int(os.environ.get('VERIF_NCASES', 70 if tier == 'quick' else 600))
-        n_two = int(os.environ.get('VERIF_NCASES2', 36 if tier == 'quick' else 300))
+        n_one = int(os.environ.get('VERIF_NCASES', 44 if tier == 'quick' else 500))
+        n_two = int(os.environ.get('VERIF_NCASES2', 20 if tier == 'quick' else 250))
         cases = []
         meta = []
         s0c = F('9/4')
@@ -760,7 +762,7 @@ def run(tier='quick', replay=None):
             s0 = F(rng.choice(SQUARES))
             prof = ['s', 's', 's', 's', 's', 's', 's', 'dc', 'ac', 'mixed'][i % 10]
             t = gen_tree(rng, s0, rng.randint(1, 4), profile=prof)
-            cases.append({'mode': 'oneport', 'tree': to_impl(t), 's0': fs(s0), 'timeout': 45})
+            cases.append({'mode': 'oneport', 'tree': to_impl(t), 's0': fs(s0), 'timeout': 30})
             meta.append({'kind': 'oneport', 'tree': t, 's0': s0, 'tag': 'random', 'profile': prof})
         # section constructors of the matrix classes
         if sect is not None:
@@ -778,8 +780,13 @@ def run(tier='quick', replay=None):
         for i in range(n_two):
             s0 = F(rng.choice(SQUARES))
             P = gen_twoport(rng, s0)
-            cases.append({'mode': 'twoport', 'tp': tp_to_impl(P), 's0': fs(s0), 'timeout': 60,
-                          'kinds': 'ABZY' if i % 3 else 'ABZYHG', 'netkinds': rng.choice(['B', 'A', 'Z', 'AB', 'BY', 'BH', 'AG'])})
+            c_ = {'mode': 'twoport', 'tp': tp_to_impl(P), 's0': fs(s0), 'timeout': 40,
+                  'kinds': 'ABZY' if i % 3 else 'ABZYHG', 'netkinds': rng.choice(['B', 'A', 'Z', 'AB', 'BY', 'BH', 'AG'])}
+            if P[0] in ('Hybrid2', 'InverseHybrid2'):
+                # the emitted netlist of a hybrid connection of common-ground sections violates the port condition
+                # (the series side shorts a port), so only the algebra is compared with the text-book sum
+                c_['want'] = ['alg', 'netlist']
+            cases.append(c_)
             meta.append({'kind': 'twoport', 'tp': P, 's0': s0, 'tag': 'random'})
         if replay and 'case' in replay and 'meta' in replay:
             cases = [replay['case']]
@@ -807,10 +814,10 @@ def run(tier='quick', replay=None):
                 prof = m.get('profile', 's')
                 # the text-book evaluator and the Coq model evaluate one field element per quantity at s = s0:
                 # valid when every source is of a transient / s-domain kind (dc and ac parts are analysed at s = 0 / j omega)
-                tb = tb_values(t) if prof == 's' else {'Z': None, 'Y': None, 'Voc': None, 'Isc': None}
-                if prof in ('dc', 'ac', 'mixed'):
-                    tbi = tb_values(t)
-                    tb['Z'], tb['Y'] = tbi['Z'], tbi['Y']
+                all_s = all(l.get('skind', 's') == 's' for l in leaves_of(t))
+                tb = tb_values(t)
+                if not all_s:
+                    tb['Voc'] = tb['Isc'] = None
                 res.count('oneport_' + m['tag'].split(':')[0] + '_' + prof)
                 res.add_case(shape(t) + '@' + fs(s0), True, {'tree': shape(t), 's0': fs(s0), 'alg': r.get('alg'), 'net': r.get('net')} if len(res.samples) < 3 else None)
                 alg, net = r.get('alg', {}), r.get('net', {})
@@ -845,7 +852,7 @@ def run(tier='quick', replay=None):
                             res.counterexamples.append({'key': key, 'case': c, 'quantity': qn, 'before': fs(a), 'after': fs(b_),
                                                         'simplified': sp_.get('repr'), 'shape': shape(t)})
                 # correspondence
-                if model1 and prof == 's':
+                if model1 and all_s:
                     try:
                         tdef = 'Definition t_%d : tree (lf QcF) := %s.' % (ci, coq_tree(t, order_params))
                     except Exception:
